@@ -33,7 +33,8 @@ def _harness_module(pid):
 # worker side
 # ---------------------------------------------------------------------------------------------
 def _run_config(args):
-    pid, cfg, seed, budget_s = args
+    pid, cfg, seed, budget_s = args[:4]
+    prefixes = args[4] if len(args) > 4 else None
     t0 = time.time()
     out = dict(cfg=cfg, key=cfg.get("key", json.dumps(cfg, sort_keys=True)))
     try:
@@ -56,7 +57,9 @@ def _run_config(args):
 
         res = core.explore(wrapped, max_paths=cfg.get("max_paths", 100000),
                            timeout_ms=cfg.get("timeout_ms", 15000), seed=seed,
-                           deadline=t0 + budget_s)
+                           deadline=t0 + budget_s, prefixes=prefixes,
+                           stop_when_pending=(cfg.get("split") if prefixes is None else None))
+        out["more_prefixes"] = res.pending_prefixes
         d = dict(paths=res.paths, aborted=res.aborted, cuts=res.cuts, inconclusive=res.inconclusive,
                  obligations=res.obligations, discharged=res.discharged, by_solver=res.by_solver,
                  nontrivial_paths=res.nontrivial_paths, queries=res.queries, solver_s=round(res.solver_s, 3),
@@ -94,6 +97,9 @@ def real_main(in_path, out_path):
         r = dict(reproduced=None, detail="")
         try:
             r.update(_with_alarm(lambda: mod.replay(case), job.get("alarm_s", 60)))
+            if r.get("timeout") and job.get("timeout_is_violation"):
+                r["reproduced"] = True
+                r["detail"] = "the real build did not return: " + r["detail"]
         except BaseException as ex:  # noqa: BLE001
             r = dict(reproduced=None, detail="replay crashed: " + repr(ex)[:300])
         out["replays"].append(r)
@@ -214,11 +220,31 @@ def main(argv):
     real_handle = _spawn_real(dict(pid=pid, cases=[], tv=tv_cases)) if tv_cases else None
     from symx import build as _build
     _build.load()          # import the symbolic build once; forked workers inherit it
-    nproc = min(int(os.environ.get("VERIF_PROCS", os.cpu_count() or 4)), max(1, len(cfgs)))
     ctx = mp.get_context("fork")
     results = []
+    nproc = int(os.environ.get("VERIF_PROCS", os.cpu_count() or 4))
     with ctx.Pool(nproc, maxtasksperchild=cfg_tasks(meta)) as pool:
-        for r in pool.imap_unordered(_run_config, [(pid, c, seed, budget) for c in cfgs], chunksize=1):
+        import queue as _q
+        doneq = _q.Queue()
+        outstanding = 0
+        for c in cfgs:
+            pool.apply_async(_run_config, ((pid, c, seed, budget),), callback=doneq.put, error_callback=doneq.put)
+            outstanding += 1
+        raw = []
+        while outstanding:
+            r = doneq.get()
+            outstanding -= 1
+            if isinstance(r, BaseException):
+                raw.append(dict(key="?", error=repr(r)))
+                continue
+            more = r.pop("more_prefixes", None) or []
+            raw.append(r)
+            # decision-tree split: the pending prefixes of a big configuration are explored by other workers
+            chunk = max(1, len(more) // (2 * nproc) + (1 if len(more) % (2 * nproc) else 0)) if more else 1
+            for i in range(0, len(more), chunk):
+                pool.apply_async(_run_config, ((pid, r["cfg"], seed, budget, more[i:i + chunk]),), callback=doneq.put, error_callback=doneq.put)
+                outstanding += 1
+        for r in _merge_by_key(raw):
             results.append(r)
             if os.environ.get("VERIF_VERBOSE"):
                 print("  cfg", r["key"], {k: r.get(k) for k in ("paths", "obligations", "discharged", "wall_s", "cuts", "inconclusive", "truncated")},
@@ -246,7 +272,7 @@ def main(argv):
     viols = [viols[i] for i in keep]
     cases = [(i, v["case"]) for i, (_, v) in enumerate(viols) if v.get("case") and "realize_error" not in v["case"]]
     if cases:
-        rr = _collect_real(_spawn_real(dict(pid=pid, cases=[c for _, c in cases], alarm_s=meta.get("replay_alarm_s", 60))),
+        rr = _collect_real(_spawn_real(dict(pid=pid, cases=[c for _, c in cases], alarm_s=meta.get("replay_alarm_s", 60), timeout_is_violation=meta.get("timeout_is_violation", False))),
                            timeout=120 + len(cases) * meta.get("replay_alarm_s", 60))
         for (i, _), rep in zip(cases, rr.get("replays", [])):
             replays[i] = rep
@@ -361,6 +387,35 @@ def main(argv):
     if harness_error or (strict and (inconc or truncated)):
         return 3
     return 0
+
+
+def _merge_by_key(raw):
+    """results of the pieces of one split configuration are added up"""
+    out = {}
+    for r in raw:
+        k = r.get("key", "?")
+        if k not in out:
+            out[k] = r
+            continue
+        a = out[k]
+        for f in ("paths", "aborted", "obligations", "discharged", "by_solver", "nontrivial_paths", "queries", "unknown", "decisions",
+                  "sym_decisions", "reached", "pending"):
+            a[f] = (a.get(f) or 0) + (r.get(f) or 0)
+        a["solver_s"] = round((a.get("solver_s") or 0) + (r.get("solver_s") or 0), 3)
+        a["wall_s"] = round(max(a.get("wall_s") or 0, r.get("wall_s") or 0), 2)
+        for f in ("cuts", "inconclusive", "obl_names", "exceptions"):
+            d = dict(a.get(f) or {})
+            for kk, v in (r.get(f) or {}).items():
+                d[kk] = d.get(kk, 0) + v
+            a[f] = d
+        a["violations"] = (a.get("violations") or []) + (r.get("violations") or [])
+        a["samples"] = ((a.get("samples") or []) + (r.get("samples") or []))[:3]
+        a["exc_samples"] = ((a.get("exc_samples") or []) + (r.get("exc_samples") or []))[:3]
+        a["functions"] = sorted(set(a.get("functions") or []) | set(r.get("functions") or []))
+        a["truncated"] = bool(a.get("truncated") or r.get("truncated"))
+        if r.get("error"):
+            a["error"] = (a.get("error") or "") + r["error"]
+    return list(out.values())
 
 
 def cfg_tasks(meta):
